@@ -155,6 +155,10 @@ def run(ctx):
                 kind, q, qt, rt, exp, docs = cases[i]
                 if code & 16:
                     sem_defined += 1
+                if code & 32:
+                    ctx.broken.append("K_shape: a tree from the real parser violates shape_expr (hypothesis of C13_no_panic)")
+                if code & 64:
+                    ctx.broken.append("K_prepared: a tree from the real Precompute violates prepared_expr (hypothesis of C14_record_unchanged)")
                 if code & 1:
                     ctx.broken.append("K_eval: model and implementation differ on %r / %s" % (qt, rt))
                 if code & 2:
